@@ -129,6 +129,13 @@ class PointTier(textgrid_tier.TextgridTier):
 
     def deleteEntry(self, entry: Point) -> None:
         """Removes an entry from the entries"""
+        # Entry equality is tolerant (isclose): prefer the entry that matches
+        # exactly over an earlier one that is merely close to it
+        for i, existingEntry in enumerate(self._entries):
+            if tuple(existingEntry) == tuple(entry):
+                self._entries.pop(i)
+                return
+
         self._entries.pop(self._entries.index(entry))
 
     def dejitter(
